@@ -68,6 +68,7 @@ def parseLen : List Char → Len × List Char
   | 't' :: r => (.t, r)
   | s => (.none, s)
 
+set_option linter.constructorNameAsVariable false in
 /-- the directive that starts behind a `%` -/
 def parseDirective (s : List Char) : Option (Directive × List Char) :=
   let fl := s.takeWhile isFlag
@@ -175,7 +176,7 @@ def isoConv (pfmt : Nat → List Char) (d : Directive) (args : List Arg) : Optio
             (if c = 'u' then 10 else if c = 'o' then 8 else 16) (c = 'X'), args)
   else if c = 'c' then
     -- "the int argument is converted to an unsigned char, and the resulting character is written"
-    if d.hash || d.zero || d.prec ≠ .none || d.len ≠ .none then none else
+    if d.hash || d.zero || prec.isSome || d.len ≠ .none then none else
     match args with
     | .int v :: as => some (pad minus width [Char.ofNat (v.toNat % 256)], as)
     | _ => none
@@ -185,7 +186,7 @@ def isoConv (pfmt : Nat → List Char) (d : Directive) (args : List Arg) : Optio
     | .str mem :: as => (isoStr mem prec).map fun body => (pad minus width body, as)
     | _ => none
   else if c = 'p' then
-    if d.plus || d.space || d.hash || d.zero || d.prec ≠ .none || d.len ≠ .none then none else
+    if d.plus || d.space || d.hash || d.zero || prec.isSome || d.len ≠ .none then none else
     match args with
     | .ptr v :: as => some (pad minus width (pfmt v.toNat), as)
     | _ => none
